@@ -716,6 +716,10 @@ def c01(tier, seed):
     for line, exps in (('./pargs a\\ ', [['a ']]), ('./pargs a\\ ; ./pargs b', [['a '], ['b']]), ('./pargs \\ ', [[' ']]), ('./pargs a\u3000', [['a\u3000']]),
                        ('  ./pargs q   &&   ./pargs r  ', [['q'], ['r']]), ('./pargs a\\\\ ', [['a\\']])):
         out.append({'line': line, 'files': {'pargs': PARGS}, 'expect_stdout': ''.join(_argv(e) for e in exps), 'area': 'argv:escaped:blank-at-the-end', 'timeout': 5})
+    # what an escaped character does to its word ends with that word -- whatever the word ends in
+    for first, exp1 in (('\\*"x"', '*x'), ("\\>'y'", '>y'), ('\\~"/q"', '~/q'), ('\\{"a,b}"', '{a,b}')):
+        out.append({'line': 'V=val; ./pargs ' + first.replace('\\\\', '\\') + ' af* $V ~ {1,2}', 'files': {'pargs': PARGS, 'afile': ''},
+                    'expect_stdout_prefix': _argv([exp1, 'afile', 'val']), 'expect_stdout_contains': _argv(['1', '2']), 'area': 'argv:escaped:tag-does-not-leak', 'timeout': 5})
     return out
 
 
